@@ -91,13 +91,13 @@ func runC20(p *Prog, r *Report) {
 		r.Check(tags["198"] == "$makeslice[:5][:5][0]" && len(p32) == 1 && p32[0].Args[1] == "$makeslice[:5][:5][1:]" && p32[0].Args[2] == "uint32(len(arg1.Body))", R, "bin32", p32.Pos(p), "c6 <len:4 BE>", "bin32 encoding is not tag 0xc6 + BigEndian uint32 length")
 		var wr Sel
 		for _, e := range pm.Ev("call", "bufio.(*Writer).Write") {
-			if len(e.Guard) > 0 && hasAtom(e.Guard, `recv.printFormat == "msgpack"`) || e.Args[1] == "φenc" {
+			if len(e.Guard) > 0 && hasAtom(e.Guard, `recv.printFormat == "msgpack"`) || litEq(e.Args[1], "φenc") {
 				wr = append(wr, e)
 			}
 		}
 		var encW, bodyW *Ev
 		for _, e := range pm.Ev("call", "bufio.(*Writer).Write") {
-			if e.Args[1] == "φenc" {
+			if litEq(e.Args[1], "φenc") {
 				encW = e
 			}
 			if e.Args[1] == "arg1.Body" && encW != nil && e.In.Block() == encW.In.Block() {
